@@ -13,7 +13,7 @@ def cell(k, t, s, c):
 
 
 def probe_spec(rng, k, ns=None, nc=None, nt=None, nsw=3, times_grid=6, tdtype='uint64', idtype='uint32',
-               tsv=None, single_x=False, last_template_empty=False, whiten=True, sim=True, nloc=2, tl=2,
+               tsv=None, single_x=False, last_template_empty=False, whiten=True, sim=True, nloc=2, tl=2, gapped=False,
                ind_dtypes=('int32', 'int32')):
     nc = nc or rng.randrange(2, 7)
     nt = nt or rng.randrange(2, 5)
@@ -33,11 +33,12 @@ def probe_spec(rng, k, ns=None, nc=None, nt=None, nsw=3, times_grid=6, tdtype='u
         pos.append([float(10 * (0 if single_x else x)), float(20 * y + (i if single_x else 0))])
     if not single_x and len({p[0] for p in pos}) < 2:
         pos[0][0] = pos[1][0] + 10.
+    ncd = nc + (rng.randrange(1, 4) if gapped else 0)
     spec = dict(
-        tok=k, n_channels=nc, n_channels_dat=nc, sample_rate=[100., 1000.][k % 2] if False else 100., dtype='int16', offset=0,
+        tok=k, n_channels=nc, n_channels_dat=ncd, sample_rate=[100., 1000.][k % 2] if False else 100., dtype='int16', offset=0,
         spike_samples=samples, spike_templates=st, spike_clusters=sc,
         amplitudes=[float(k * 1000 + i) + .5 for i in range(ns)],
-        channel_map=rng.sample(range(nc), nc), channel_positions=pos,
+        channel_map=rng.sample(range(ncd), nc), channel_positions=pos,
         templates=[[[cell(k, t, s, c) for c in range(nc)] for s in range(nsw)] for t in range(nt)],
         pc_feature_ind=[rng.sample(range(nc), nloc) for _ in range(nt)],
         template_feature_ind=[rng.sample(range(nt), tl) for _ in range(nt)],
